@@ -431,3 +431,38 @@ pub fn jres<T: Serialize, E: Display>(r: Result<T, E>) -> Value {
         Err(e) => json!({"err": e.to_string()}),
     }
 }
+
+/// Echo that returns a rich `Response<Empty>` (two sub-messages with id / payload / gas limit /
+/// reply trigger, a second attribute, an event, data).  `flag == 7` additionally adds a
+/// `CosmosMsg::Custom(Empty)` message, `flag == 8` a deprecated stargate message.
+pub fn echo_rich_empty<Q: CustomQuery>(
+    h: &str,
+    deps: DepsMut<Q>,
+    env: &Env,
+    info: Option<&MessageInfo>,
+    args: Vec<(&str, String)>,
+    flag: u32,
+) -> StdResult<Response<Empty>> {
+    let base: Response<Empty> = echo_mut(h, deps, env, info, args)?;
+    let mut r = base
+        .add_submessage(cw::SubMsg {
+            id: 11,
+            payload: Binary::from(vec![1u8, 2]),
+            gas_limit: Some(5),
+            reply_on: cw::ReplyOn::Error,
+            msg: cw::CosmosMsg::Bank(cw::BankMsg::Send { to_address: "t".into(), amount: vec![Coin { denom: "atom".into(), amount: Uint128::new(1) }] }),
+        })
+        .add_submessage(cw::SubMsg::reply_always(cw::WasmMsg::Execute { contract_addr: "w".into(), msg: Binary::from(b"{}".to_vec()), funds: vec![] }, 12))
+        .add_attribute("k2", "v2")
+        .add_event(cw::Event::new("ev").add_attribute("x", "y"))
+        .set_data(b"dat".to_vec());
+    if flag == 7 {
+        r = r.add_message(cw::CosmosMsg::Custom(Empty {}));
+    }
+    if flag == 8 {
+        #[allow(deprecated)]
+        let m = cw::CosmosMsg::Stargate { type_url: "/s.T".into(), value: Binary::from(vec![3u8]) };
+        r = r.add_message(m);
+    }
+    Ok(r)
+}
